@@ -55,12 +55,13 @@ def wal_models(ctx, family, pinned):
         ctx.model_check("Wal.tla", "cfg/wal_pinned_%s.cfg" % d, expect_violation="*", timeout=900)
 
 
-def export_behaviours(ctx, module, cfg, label):
-    """Runs the behaviour-export spec and returns the parsed behaviours."""
+def export_behaviours(ctx, module, cfg, label, simulate=None):
+    """Runs the behaviour-export spec (exhaustively, or as seeded random walks) and returns the parsed behaviours."""
     import behaviours as B
     out = ctx.path("beh-%s.out" % label)
-    r = ctx.tlc(module, cfg, workers=1, timeout=1800, heap="6g", stdout_file=out)
-    if r["error"] or "Model checking completed" not in r["out"]:
+    extra = ["-simulate", "num=%d" % simulate, "-depth", "45", "-seed", str(ctx.seed)] if simulate else None
+    r = ctx.tlc(module, cfg, workers=1, timeout=1800, heap="6g", stdout_file=out, extra=extra)
+    if r["error"] or ("Model checking completed" not in r["out"] and not (simulate and "Finished in" in r["out"])):
         raise Inconclusive("behaviour export failed: %s %s\n%s" % (module, cfg, r["out"][-2000:]))
     behs = B.parse(out)
     os.remove(out)
@@ -70,10 +71,12 @@ def export_behaviours(ctx, module, cfg, label):
     return behs
 
 
-def wal_replay(ctx, gencfg, label, mode, n, big=False, extra=None, want=None):
+def wal_replay(ctx, gencfg, label, mode, n, big=False, extra=None, want=None, simulate=None):
     """spec -> code: behaviours of the Wal model, replayed on the real code with fault images."""
     import behaviours as B
-    behs = export_behaviours(ctx, "GenWal.tla", "cfg/%s.cfg" % gencfg, label)
+    behs = export_behaviours(ctx, "GenWal.tla", "cfg/%s.cfg" % gencfg, label, simulate=simulate)
+    if simulate:
+        behs = [b for b in behs if len(b) >= 9]
     if want:
         behs = [b for b in behs if want(b)]
     sm = B.sample(behs, n, ctx.seed)
@@ -125,6 +128,8 @@ def c03(ctx):
     wal_models(ctx, "crash", ["D11"])
     rejs = regress(ctx) + fault_family(ctx, "crash", "crash", CORES, 12 if q else 120, 25, ["-twice"] if not q else [])
     rejs += wal_replay(ctx, "gen_wal_crash", "crash", "crash", 200 if q else 4000, big=True)
+    if not q:
+        rejs += wal_replay(ctx, "gen_wal_sim_crash", "simcrash", "crash", 1500, simulate=1500)
     ctx.report_rejections(rejs, describe_generic)
     h = ctx.cov["harness"]["crash"]
     ctx.cov["evaluations"] = h.get("images", 0)
@@ -145,13 +150,17 @@ def c04(ctx):
     wal_models(ctx, "crash", ["D2"])
     if not q:
         ctx.model_check("Wal.tla", "cfg/wal_crash3_t.cfg", timeout=3000)
-    rejs = regress(ctx) + fault_family(ctx, "crash-epochs", "crash", CORES, 10 if q else 100, 25, ["-epochs", "-twice", "-depth", "1"])
+    rejs = regress(ctx) + fault_family(ctx, "crash-epochs", "crash", CORES // 2, 10 if q else 100, 25, ["-epochs", "-twice", "-depth", "1"])
+    rejs += fault_family(ctx, "crash-epochs-failopen", "crash", CORES // 2, 10 if q else 100, 25, ["-epochs", "-failopen"])
     rejs += wal_replay(ctx, "gen_wal_crash5", "crash5", "crash", 200 if q else 4000, extra=["-twice", "-depth", "1"],
                        want=lambda b: sum(1 for e in b if e["op"] in ("crash", "tornput")) >= 1)
+    if not q:
+        rejs += wal_replay(ctx, "gen_wal_sim_crash", "simcrash", "crash", 1500, extra=["-twice", "-depth", "1"], simulate=1500,
+                           want=lambda b: sum(1 for e in b if e["op"] in ("crash", "tornput")) >= 2)
     ctx.report_rejections(rejs, describe_generic)
-    h = ctx.cov["harness"]["crash-epochs"]
-    ctx.cov["evaluations"] = h.get("images", 0)
-    ctx.cov["distinct_nontrivial"] = h.get("distinct_images", 0)
+    hs = [v for k, v in ctx.cov["harness"].items() if k.startswith("crash") or k.startswith("behaviours")]
+    ctx.cov["evaluations"] = sum(h.get("images", 0) for h in hs)
+    ctx.cov["distinct_nontrivial"] = sum(h.get("distinct_images", 0) for h in hs)
     ctx.assumptions += ["process-crash model of the property statement"] + FAULT_ASSUME
     return ctx.finish("model_checking", "random programs with crashat directives: the run continues INSIDE a crash image (possibly torn) for up to ~5 epochs per program; "
                       "crash images before every mutating call of every session including the recovering Opens themselves (nesting depth 1), every image recovered twice; "
@@ -169,6 +178,8 @@ def c06(ctx):
     rejs += fault_family(ctx, "power-compact", "power", CORES // 2, n, 30, ["-noreopen", "-compactheavy", "-plimit", "12" if q else "48"], keys=12)
     rejs += fault_family(ctx, "power-compact-syncw", "power", CORES // 2, n, 30, ["-noreopen", "-compactheavy", "-syncw", "-plimit", "12" if q else "48"], keys=12)
     rejs += wal_replay(ctx, "gen_wal_power", "power", "power", 120 if q else 2500, extra=["-plimit", "32"], want=lambda b: any(e["op"] == "sync" for e in b))
+    if not q:
+        rejs += wal_replay(ctx, "gen_wal_sim_power", "simpower", "power", 800, extra=["-plimit", "24"], simulate=1500, want=lambda b: any(e["op"] == "sync" for e in b))
     ctx.report_rejections(rejs, describe_generic)
     hs = [v for k, v in ctx.cov["harness"].items() if k.startswith("power") or k.startswith("behaviours")]
     ctx.cov["evaluations"] = sum(h.get("images", 0) for h in hs)
@@ -240,6 +251,8 @@ def c05(ctx):
     wal_models(ctx, "crash", ["D8"])
     rejs = regress(ctx) + fault_family(ctx, "compact-inject-crash", "crash", CORES, 10 if q else 80, 40, ["-inject", "-keys", "6"])
     rejs += wal_replay(ctx, "gen_wal_crash5", "compact", "crash", 250 if q else 5000, want=lambda b: any(e["op"] == "pick" for e in b))
+    if not q:
+        rejs += wal_replay(ctx, "gen_wal_sim_crash", "simcompact", "crash", 1500, simulate=1500, want=lambda b: any(e["op"] == "pick" for e in b))
     ctx.report_rejections(rejs, describe_generic)
     h = ctx.cov["harness"]["compact-inject-crash"]
     ctx.cov["evaluations"] = h.get("images", 0)
@@ -257,7 +270,7 @@ def c02(ctx):
     q = ctx.quick()
     wal_models(ctx, "crash", ["D11"])
     outs = seq_jobs(ctx, "restart-alt", 8, 5 if q else 40, 300, 64, ("os", "osmmap"), ["-alt", "-sessions"])
-    outs += seq_jobs(ctx, "restart", 8, 5 if q else 40, 300, 64, ALLFS, ["-alt", "-sessions"])
+    outs += seq_jobs(ctx, "restart", 8, 5 if q else 40, 300, 64, ALLFS, ["-alt", "-sessions", "-nopin"])
     rejs = regress(ctx) + ctx.validate(outs)
     ctx.sample_from(outs[0], 1)
     ctx.report_rejections(rejs, describe_generic)
@@ -292,12 +305,13 @@ def c11(ctx):
 def c12(ctx):
     q = ctx.quick()
     outs = seq_jobs(ctx, "backup-inject", 12, 3 if q else 24, 120, 24, ALLFS, ["-backup"])
-    rejs = ctx.validate(outs)
+    outs += stress_jobs(ctx, "backup-concurrent", 8, 6 if q else 80, 30, 40, ALLFS, ["-maint", "-grow"], workers=2)
+    rejs = ctx.validate(outs, dfs=True, soft_timeout=600)
     ctx.sample_from(outs[0], 1)
     ctx.report_rejections(rejs, describe_generic)
     h = ctx.cov["harness"]
-    ctx.cov["evaluations"] = h["backup-inject"].get("ops", 0)
-    ctx.cov["distinct_nontrivial"] = h["backup-inject"].get("programs", 0)
+    ctx.cov["evaluations"] = h["backup-inject"].get("ops", 0) + ctx.cov["events"]
+    ctx.cov["distinct_nontrivial"] = h["backup-inject"].get("programs", 0) + h["backup-concurrent"].get("histories", 0)
     ctx.assumptions += ["a writer placed at a yield point of Backup by the hook runs on the goroutine executing Backup while it holds no database lock (it holds the maintenance lock, which writers do not take)"]
     return ctx.finish("model_checking", "random histories whose Backup calls have writers (puts with rollover, deletes, reads) injected at the yield points of Backup (after the size capture, before every segment copy, before the lock file is created); "
                       "every backup directory is then opened by the real code and read back, the source is read back too; on crashfs, fs.Mem, fs.OS, fs.OSMMap; "
@@ -334,12 +348,12 @@ def c07(ctx):
     q = ctx.quick()
     if not q:
         ctx.model_check("AbsModel.tla", "cfg/abs_model.cfg", workers=8, timeout=3000)
-    outs = stress_jobs(ctx, "stress", 12, 20 if q else 300, 14, 4, ALLFS, ["-maint"], workers=3)
+    outs = stress_jobs(ctx, "stress", 12, 20 if q else 300, 14, 4, ALLFS, ["-maint", "-syncw"], workers=3)
     outs += stress_jobs(ctx, "stress-bg", 4, 10 if q else 150, 14, 3, ("osmmap", "os", "mem", "crashfs"), ["-maint", "-bg"], workers=3)
-    outs += stress_jobs(ctx, "stress-grow", 16, 4 if q else 40, 120, 800, ALLFS, ["-maint", "-grow"], workers=3)
+    outs += stress_jobs(ctx, "stress-grow", 16, 4 if q else 40, 120, 800, ALLFS, ["-maint", "-grow", "-syncw"], workers=3)
     jobs, o2 = fault_jobs(ctx, "seq", 4, 6 if q else 60, 50, 5, ["-inject"])
     add_stats(ctx, ctx.vrun_parallel(jobs), "compact-inject")
-    rejs = ctx.validate(outs + o2, dfs=True)
+    rejs = ctx.validate(outs + o2, dfs=True, soft_timeout=600)
     ctx.sample_from(outs[0], 1)
     ctx.report_rejections(rejs, describe_generic)
     h = ctx.cov["harness"]
@@ -379,6 +393,7 @@ def c10(ctx):
     outs = stress_jobs(ctx, "race-stress", 12, 8 if q else 120, 14, 4, ("mem", "os", "osmmap"), ["-maint", "-closemid", "-bg"], race=True, workers=3)
     outs += stress_jobs(ctx, "close-race", 4, 20 if q else 200, 10, 3, ALLFS, ["-maint", "-closemid"], workers=3)
     outs += stress_jobs(ctx, "race-grow", 4, 2 if q else 30, 120, 800, ("osmmap", "mem", "os", "osmmap"), ["-maint", "-grow"], race=True, workers=3)
+    outs += stress_jobs(ctx, "close-vs-held-worker", 4, 6 if q else 60, 10, 3, ALLFS, ["-maint", "-holdbg"], workers=2)
     races = race_reports(ctx)
     extra = ctx.path("rec-race-events.ndjson")
     with open(extra, "w") as f:
@@ -391,7 +406,7 @@ def c10(ctx):
             f.write(json.dumps({"e": "fault", "what": crash, "fs": fsn}) + "\n")
     ctx.cov["race_reports"] = len(races)
     ctx.cov["process_crashes"] = len(getattr(ctx, "crashes", []))
-    rejs = ctx.validate(outs + ([extra] if races or getattr(ctx, "crashes", []) else []), dfs=True)
+    rejs = ctx.validate(outs + ([extra] if races or getattr(ctx, "crashes", []) else []), dfs=True, soft_timeout=600)
     ctx.sample_from(outs[0], 1)
 
     def describe(rej):
@@ -408,10 +423,10 @@ def c10(ctx):
     ctx.report_rejections(rejs, describe)
     h = ctx.cov["harness"]
     ctx.cov["evaluations"] = ctx.cov["events"]
-    ctx.cov["distinct_nontrivial"] = h["race-stress"].get("histories", 0) + h["close-race"].get("histories", 0) + h["race-grow"].get("histories", 0)
+    ctx.cov["distinct_nontrivial"] = sum(h[k].get("histories", 0) for k in ("race-stress", "close-race", "race-grow", "close-vs-held-worker"))
     ctx.assumptions += ["data races and memory faults are not expressible in TLA+: they are observed by the Go race detector / SetPanicOnFault on these schedules and enter the recording as events no Layer-A action accepts; completeness is that of the schedules run"]
     return ctx.finish("model_checking", "free-running histories built with -race: workers + maintenance goroutine (Compact, Sync, Backup, scans, FileSize, Metrics) + background workers, Close fired at a random point of half of the histories; "
-                      "panics -> fault events, 20 s without progress -> stuck event with goroutine dump, goroutines inside pogreb after Close returned -> leak event, race-detector reports -> race events; "
+                      "panics -> fault events, 60 s without progress -> stuck event with goroutine dump, goroutines inside pogreb after Close returned -> leak event, race-detector reports -> race events; "
                       "TLC validates against Layer A: results of calls overlapping Close must be an error or a legal linearized effect, the directory reopens with exactly the linearized contents; fault/stuck/leak/race events are never accepted")
 
 
@@ -465,7 +480,7 @@ def c13(ctx):
     ctx.sample_from(outs[0], 2)
     # database level: sequential session chains (clean / unclean ends, competing Open while open)
     outs2 = seq_jobs(ctx, "db-sessions", 4, 4 if q else 30, 60, 8, ALLFS, ["-alt", "-open2"])
-    jobs3, outs3 = fault_jobs(ctx, "crash", 4, 4 if q else 30, 20, 6, ["-epochs", "-open2"])
+    jobs3, outs3 = fault_jobs(ctx, "crash", 4, 4 if q else 30, 20, 6, ["-epochs", "-open2", "-failopen"])
     add_stats(ctx, ctx.vrun_parallel(jobs3), "db-crash-chains")
     rejs2 = ctx.validate(outs2 + outs3)
     ctx.report_rejections(rejs, describe_lock)
